@@ -147,7 +147,7 @@ Proof.
   pose proof (Z.div_mod a (2 ^ b) ltac:(lia)). pose proof (Z.mod_pos_bound a (2 ^ b) Hp). nia.
 Qed.
 
-(* ---------------------------------------------------------------- min / max / unary keep ints ints *)
+(* ---------------------------------------------------------------- min / max keep ints ints (abs..roundm: ProofsInt.v) *)
 Lemma min_ints a b : min_variadic2 (NInt a) (NInt b) = RInt (Z.min a b).
 Proof.
   unfold min_variadic2, min_bin, num_of_res. rewrite Z.ltb_irrefl.
@@ -159,16 +159,4 @@ Proof.
   destruct (Z.ltb_spec b a); f_equal; lia.
 Qed.
 
-Lemma math_unary_int_stays_int u a : exists n, eval_un (UMath u) (NInt a) = RInt n /\ in64 n = true.
-Proof.
-  eexists. split; [reflexivity|]. unfold f2i.
-  destruct (Prim2SF _) as [s|s| |s m e]; try reflexivity.
-  match goal with |- in64 (if in64 ?v then _ else _) = true => destruct (in64 v) eqn:E; [exact E|reflexivity] end.
-Qed.
-Lemma roundm_int_stays_int a b : exists n, eval_bin ORoundm (NInt a) (NInt b) = RInt n /\ in64 n = true.
-Proof.
-  eexists. split; [reflexivity|]. unfold f2i.
-  destruct (Prim2SF _) as [s|s| |s m e]; try reflexivity.
-  match goal with |- in64 (if in64 ?v then _ else _) = true => destruct (in64 v) eqn:E; [exact E|reflexivity] end.
-Qed.
 Lemma neg_wrap a : eval_un UNeg (NInt a) = RInt (wrap64 (- a)). Proof. reflexivity. Qed.
